@@ -13,7 +13,7 @@ class SsatT1(Ssat):
         rn = substring(instr, 19, 16)
         sh = bit_at(instr, 21)
         saturate_to = sat_imm + 1
-        shift_t, shift_n = decode_imm_shift(sh << 2, chain(imm3, imm2, 2))
+        shift_t, shift_n = decode_imm_shift(sh << 1, chain(imm3, imm2, 2))
         if rd in (13, 15) or rn in (13, 15):
             print('unpredictable')
         else:
